@@ -89,7 +89,10 @@ class C17(core.Check):
     required_buckets = {b: 3 for b in ['nesting:1', 'nesting:2', 'nesting:3', 'dirs:1', 'dirs:2', 'dirs:3', 'class:metamorphic',
                                        'class:zone-region-continuation', 'class:file-label-isolation',
                                        'neg:included-twice', 'neg:transitively-twice', 'neg:self-include', 'neg:missing-file',
-                                       'neg:ambiguous-name', 'include-while-muted', 'files:3+']}
+                                       'neg:ambiguous-name', 'include-while-muted', 'files:3+', 'neg:file-label-of-includer',
+                                       'neg:file-label-of-included', 'neg:file-label/include-top', 'neg:file-label/include-after-global-label',
+                                       'neg:file-label/include-after-local-label', 'neg:file-label/include-after-org',
+                                       'neg:file-label/include-nested']}
 
     def metamorphic(self, rng):
         g = None
@@ -231,6 +234,34 @@ class C17(core.Check):
                 fl['dup.asm'] = '.byte 4\n'
                 del fl['d2/dup.asm']
                 argv = argv[:-2]
+        elif kind in ('file-label-of-includer', 'file-label-of-included'):
+            # file-scoped names of one file are invisible to the other, wherever the #include line stands
+            where = rng.choice(['top', 'after-global-label', 'after-global-label', 'after-local-label', 'after-org', 'nested'])
+            ref = rng.choice(['.2byte _priv', '.byte (_priv & $FF)', 'jmp _priv', '.2byte _priv + 1'])
+            own = '_priv:\n.byte 7\n'
+            if kind == 'file-label-of-includer':
+                pre = {'top': '', 'after-global-label': 'host:\n.byte 1\n', 'after-local-label': 'host:\n.byte 1\n.loc:\n.byte 2\n',
+                       'after-org': '.byte 1\n.org $40\n', 'nested': 'host:\n.byte 1\n'}[where]
+                defn = own if rng.random() < 0.5 else '_priv = 9\n'
+                before = rng.random() < 0.5
+                fl['p.asm'] = (defn if before else '') + pre + '#include "a.asm"\n.byte 3\n' + ('' if before else defn)
+                if where == 'nested':
+                    fl['a.asm'] = 'mid:\n.byte 4\n#include "b.asm"\n'
+                    fl['b.asm'] = 'deep:\n' + ref + '\n'
+                else:
+                    fl['a.asm'] = 'in_a:\n' + ref + '\n'
+            else:
+                pre = {'top': '', 'after-global-label': 'host:\n.byte 1\n', 'after-local-label': 'host:\n.byte 1\n.loc:\n.byte 2\n',
+                       'after-org': '.byte 1\n.org $40\n', 'nested': 'host:\n.byte 1\n'}[where]
+                fl['p.asm'] = pre + '#include "a.asm"\nback:\n' + ref + '\n'
+                if where == 'nested':
+                    fl['a.asm'] = 'mid:\n.byte 4\n#include "b.asm"\n'
+                    fl['b.asm'] = own
+                else:
+                    fl['a.asm'] = 'in_a:\n.byte 4\n' + own
+            return {'runs': [{'files': fl, 'argv': argv, 'probes': ['steps', 'files'], 'step_limit': 500000, 'cpu_s': 10}],
+                    'meta': {'class': 'negative', 'kind': 'REJECT', 'why': kind, 'image': None},
+                    'tags': ['neg:' + kind, 'neg:file-label/include-' + where]}
         return {'runs': [{'files': fl, 'argv': argv, 'probes': ['steps', 'files'], 'step_limit': 500000, 'cpu_s': 10}],
                 'meta': {'class': 'negative', 'kind': 'REJECT', 'why': kind, 'image': None}, 'tags': ['neg:' + kind]}
 
@@ -246,6 +277,9 @@ class C17(core.Check):
         for i in range(25 if tier == 'quick' else 100):
             rng = core.rng_for(0, self.pid, 'neg', i)
             yield self.negative(rng, negs[i % 5])
+        for i in range(80 if tier == 'quick' else 400):
+            rng = core.rng_for(0, self.pid, 'negfl', i)
+            yield self.negative(rng, ['file-label-of-includer', 'file-label-of-included'][i % 2])
 
     def judge(self, case, outcomes):
         o = outcomes[0]
